@@ -9,9 +9,10 @@ Open Scope Z_scope.
    thresholds), every environment (which thresholds are still awaited, which conditions hold or raise, when commands
    complete, tick times) and any number of ticks -- the blocks that hold the block lock form ONE nested chain: of any
    two, one is an ancestor of the other. A block can take the lock only when every locked block is one of its ancestors,
-   and nothing else ever sets the lock. *)
+   and nothing else ever sets the lock. (Blocks of the method tree: in_method; the blocks of injected snippets are invisible
+   to get_locked_blocks -- C14.) *)
 Theorem C05_locked_blocks_form_a_chain : forall p ts,
-  Forall (fun s => forall a b, is_block p a = true -> is_block p b = true ->
+  Forall (fun s => forall a b, is_block p a = true -> is_block p b = true -> in_method p a = true -> in_method p b = true ->
                    lock_acquired (st s a) = true -> lock_acquired (st s b) = true ->
                    a = b \/ In a (ancestors p b) \/ In b (ancestors p a))
          (states p [FVisit 0] (init p) 0 ts).
